@@ -120,7 +120,7 @@ class MPSSystem(System):
         self.full = full_menu
 
     def canon(self, w):
-        return (_bytes(w.psi), _bytes(w.H))
+        return (_bytes(w.psi), _bytes(w.H), _bytes(w.phi))
 
     def enabled(self, w):
         T = []
@@ -155,6 +155,8 @@ class MPSSystem(System):
         add(('split_merge01',), L >= 2 and nz, lambda W, c: _split_merge(W))
         add(('psi=from_vector',), not np.any(np.asarray(w.psi.qd)) and small, lambda W, c: _from_vector(W))
         add(('K=constructor',), True, lambda W, c: setattr(W, 'K', CTORS[W.ctor]()))
+        add(('phi=MPS(random)',), True, lambda W, c: setattr(W, 'phi', MPS(W.phi.qd, W.phi.qD, fill='random', rng=np.random.default_rng(3))))
+        add(('H=MPO(random)',), _maxbond(w.H) <= MAXBOND, lambda W, c: setattr(W, 'H', MPO(W.H.qd, W.H.qD, fill='random', rng=np.random.default_rng(4))))
         return T
 
     def check_state(self, w, ctx):
@@ -253,7 +255,7 @@ def spaces(tier, seed):
             if ok:
                 chunks.append(({'world': wn, 'prefix': [list(label)]}, depth - 1))
     return [Space('mps_histories', chunks, run_chunk=_run_chunk, sig=sig,
-                  bounds={'worlds': worlds, 'depth': depth, 'menu_size': 23, 'max_bond_guard': MAXBOND,
+                  bounds={'worlds': worlds, 'depth': depth, 'menu_size': 25, 'max_bond_guard': MAXBOND,
                           'menu': ['psi.orthonormalize(l/r)', 'psi.compress(tol 0/0.2, l/r)', 'H.orthonormalize(l/r)', 'psi=psi+phi', 'psi=phi-psi',
                                    'psi=apply(H,psi)', 'H=H+K', 'H=H-K', 'H=K@K', 'tdvp two-site (tol 0/1e-3)', 'tdvp single-site',
-                                   'dmrg single-site', 'dmrg two-site', 'split/merge sites 0,1', 'psi=from_vector(as_vector)', 'K=constructor']})]
+                                   'dmrg single-site', 'dmrg two-site', 'split/merge sites 0,1', 'psi=from_vector(as_vector)', 'K=constructor', 'phi=MPS(qd,qD,random)', 'H=MPO(qd,qD,random)']})]
